@@ -154,14 +154,23 @@ fn run_resource(sx: &sexpr::Sx) -> Vec<String> {
             settle().await;
             observe(&mut out);
         }
+        // disposing the scope with fetches still pending must not panic, neither here nor when the executor drops the
+        // cancelled tasks (tokio swallows such panics: the hook counts them)
+        let before = PANICS.with(|p| p.get());
         root.dispose();
         settle().await;
+        out.push(format!("end panics={}", PANICS.with(|p| p.get()) - before));
         out
     })
 }
 
+thread_local! {
+    static PANICS: std::cell::Cell<u32> = const { std::cell::Cell::new(0) };
+}
+
 fn main() {
     panic::set_hook(Box::new(|info| {
+        PANICS.with(|p| p.set(p.get() + 1));
         if std::env::var("VERIF_DEBUG").is_ok() {
             eprintln!("{info}");
         }
